@@ -114,3 +114,14 @@ CHECKS["C11"] = hist_check("C11",
     "allocator obtain at least one region directly from the OS besides arena reservations. Distinct = hash of the IR text.",
     [R("rel", 3000, 60000, 2.0), R("dbg", 800, 15000, 1.0)],
     assumptions=["resident pages are measured with mincore over the mappings recorded by the shim (private anonymous memory)", "with purge_decommits=0 (MADV_FREE) residency is not asserted"])
+
+CHECKS["C18"] = hist_check("C18",
+    "cases = purge_delay {-1,0,5,10} x purge_decommits {0,1} x arena_purge_mult {1,10} (x eager_commit_delay) x workloads that free whole pages of a segment that stays in "
+    "use (blocks 64 KiB-4 MiB), whole segments (blocks 17-60 MiB) and/or everything; then the virtual clock is advanced past delay*mult + 100 ms per free + 1 s, followed "
+    "by 1-3 rounds of ordinary activity (one more free in the same segment, a large and a huge alloc+free, mi_collect(false), more ticks). No forced collect anywhere. "
+    "Oracle from the OS shim's log of madvise(DONTNEED|FREE)/mprotect(PROT_NONE): delay>0: every freed watched region is hit by a purge call by the end; delay=0: by the "
+    "time the freeing call returned; delay=-1: no purge call at all in the whole case. Non-trivial = the case freed at least one whole segment and one page of a surviving "
+    "segment and all expectations were evaluated. Distinct = hash of the IR text.",
+    [R("rel", 6000, 100000, 2.0), R("dbg", 2000, 30000, 1.0)],
+    assumptions=["purge by reset (purge_decommits=0) is only promised for fully committed ranges: those cases set eager commit options so the expectation is what the code documents",
+                 "only the presence/absence of purge calls per freed region is asserted, not the amount purged nor that a purge does not come early"])
